@@ -59,9 +59,28 @@ def _mismatched_flag_wallets(rng, tier):
                 yield "w_addr raw:%s:%s:%s %s %s" % (hx(sd), nt, wt, sx(pth), kind), "node-flag-vs-wallet-flag"
 
 
+def _imported_key_nodes(rng, tier):
+    """the node of an IMPORTED extended key itself (a parsed private key is held in its 33-byte 00-prefixed form, a public
+    one as 33-byte SEC) and its children, every address kind: the address commits to the PUBLIC key of the node"""
+    from .c07 import payload, pub_sec
+    for name, ver in (("xprv", 0x0488ADE4), ("tprv", 0x04358394), ("zprv", 0x04B2430C), ("xpub", 0x0488B21E), ("vpub", 0x045F1CF6)):
+        for _ in range(1 if tier == "quick" else 10):
+            k = rng.randrange(1, N)
+            prv = name.endswith("prv")
+            key33 = (b"\x00" + k.to_bytes(32, "big")) if prv else pub_sec(k)
+            depth = rng.choice([0, 3])
+            s_ = b58check_enc(payload(ver, depth, bytes(4) if depth == 0 else b"\x09\x08\x07\x06", 0 if depth == 0 else 5,
+                                      bytes(rng.getrandbits(8) for _ in range(32)), key33))
+            root = "m" if prv else "M"
+            for pth in (root, root + "/0", root + "/1/2"):
+                for kind in KINDS:
+                    yield "w_addr xkey:%s %s %s" % (sx(s_), sx(pth), kind), "imported-key-node"
+
+
 def cases(rng, tier):
     yield from _zero_block_cases(rng, tier)
     yield from _mismatched_flag_wallets(rng, tier)
+    yield from _imported_key_nodes(rng, tier)
     ks = [1, 2, 3, N - 1, N - 2, 2 ** 255, 2 ** 64]
     for _ in range(25 if tier == "quick" else 2500):
         ks.append(rng.randrange(1, N))
@@ -191,7 +210,12 @@ def oracle(line, out):
             sec = sec_c(x, y)
         else:
             sec = kb
-        return oracle("addr %s %s %s" % (kind, hx(sec), wspec.split(":")[-1]), out)
+        if wspec.startswith("xkey:"):
+            ver_ = int.from_bytes(b58check_dec(unstr(wspec.split(":")[1]))[:4], "big")
+            flag = "1" if ver_ in (0x043587CF, 0x04358394, 0x044A5262, 0x044A4E28, 0x045F1CF6, 0x045F18BC) else "0"
+        else:
+            flag = wspec.split(":")[-1]
+        return oracle("addr %s %s %s" % (kind, hx(sec), flag), out)
     if op == "pk_addr":
         key, c, t, kind = unhex(tok[1]), tok[2] == "1", tok[3] == "1", tok[4]
         if kind not in ("p2pkh", "p2wpkh"):
